@@ -122,6 +122,9 @@ func main() {
 		if single {
 			kind = "single"
 			s := slots[0]
+			if cosmos {
+				rec.Items(s.mk(), s.mk())
+			}
 			rec.Create(s.mk(), s.mk(), "create")
 		} else {
 			n := r.Range(4, *maxOps)
@@ -149,14 +152,6 @@ func main() {
 						s.live = false
 					}
 				default:
-					if cosmos && !s.live {
-						// the cosmos fake retries a patch of a missing item for a long time: live plans only
-						k--
-						if !anyLive {
-							k++
-						}
-						continue
-					}
 					update(r, rec, s, cosmos)
 				}
 			}
